@@ -7,7 +7,7 @@
 import TrompModel.Model.CxxBase
 namespace Tromp.Cxx
 
-/-- `impl::ends_with_checker::operator()` — translated from include/trompeloeil/matcher/range.hpp:707 -/
+/-- `impl::ends_with_checker::operator()` — translated from include/trompeloeil/matcher/range.hpp:715 -/
 def ends_with_elements {α μ : Type} (accepts : μ → α → Bool) (range : List α) (elements : List μ) : Bool := Id.run do
   let mut it : List α := range
   let num_values := elements.length
